@@ -19,7 +19,7 @@ use crate::symx_api::RunCfg;
 pub const TPL_HAY: &str = "ab\u{20ac}c";
 
 /// (regex, note)
-pub const TPL_REGEXES: [&str; 9] = [
+pub const TPL_REGEXES: [&str; 12] = [
     "(a)(b)(x)?(\u{20ac})",
     "(?<n>a)(?<m_2>b)(?<u>x)?",
     "(?<n>a)(b)(?=)",
@@ -29,6 +29,10 @@ pub const TPL_REGEXES: [&str; 9] = [
     "(?<n>a)(?<m_2>b)(?<u>x)?(?=)",
     "(?<e1>a)(?<\u{e9}>b)",
     "(?<a>a)(?<ab>b)(?<_>\u{20ac})(?!x)",
+    // a group whose *name* is a number that is the index of another group
+    "(a)(?<1>b)",
+    "(?<2>a)(b)(?=)",
+    "(?<0>a)(?<03>b)()",
 ];
 
 pub const SHARDS: usize = 4;
